@@ -1,5 +1,5 @@
 (* C11 — GetSnapshot returns the latest accepted snapshot, which is always a usable base. *)
-From TSS Require Import AStore Seq Http proofs.Chain proofs.Steps proofs.Inv proofs.Agree proofs.Hist proofs.Cas proofs.Snapshot proofs.UrgencyArith proofs.HttpProps proofs.HttpReach proofs.HttpLib proofs.HttpLib2 proofs.SnapPair.
+From TSS Require Import AStore Seq Http proofs.Chain proofs.Steps proofs.Inv proofs.Agree proofs.Hist proofs.Cas proofs.Snapshot proofs.UrgencyArith proofs.HttpProps proofs.HttpReach proofs.HttpLib proofs.HttpLib2 proofs.SnapPair proofs.HttpPair.
 Open Scope N_scope.
 
 (* ghost_snapshot recomputes, from requests and responses only, the most recent AddSnapshot
@@ -70,3 +70,22 @@ Example C11_two_uploads_nonvacuous :
   let x := mkCS 13 None vs in
   newer_in_window x 13 12 /\ as_accepts x 13 = true /\ as_accepts x 12 = true.
 Proof. exact snapshot_pair_nonvacuous. Qed.
+
+(* the same over HTTP: after ANY HTTP history, two add-snapshot requests of one listed client for two of its five
+   most recent versions (the newer acceptable by the rule of C10), in EITHER order, are followed by a
+   get-snapshot answering 200 with the id and exactly the bytes of the upload for the newer version *)
+Theorem C11_http_two_uploads_newer_wins : forall k cfg allow h c vn vo csn cso E0 E1 E2 E3 E4 E5 E6 pre mid post,
+  cfg_ok cfg -> client_id_header allow (COk c) = inl c -> body_refused csn = false -> body_refused cso = false ->
+  horacle_ok (h ++ [(gs_req c, E0)]) ->
+  horacle_ok (h ++ [(as_req c vo cso, E1); (as_req c vn csn, E2); (gs_req c, E3)]) ->
+  horacle_ok (h ++ [(as_req c vn csn, E4); (as_req c vo cso, E5); (gs_req c, E6)]) ->
+  let acc := accepted c (lib_of allow h) (responses k cfg (lib_of allow h)) in
+  five_most_recent acc = pre ++ vn :: mid ++ vo :: post ->
+  forall rs, hresponses k cfg allow (h ++ [(gs_req c, E0)]) = hresponses k cfg allow h ++ [rs] ->
+  accept_rule acc (hsnap_of rs) vn ->
+  exists r1 r2 r3 r4,
+    hresponses k cfg allow (h ++ [(as_req c vo cso, E1); (as_req c vn csn, E2); (gs_req c, E3)])
+      = hresponses k cfg allow h ++ [r1; r2; mkResp 200 (Some vn) None None (Some RTSnapshot) (body_of csn) true] /\
+    hresponses k cfg allow (h ++ [(as_req c vn csn, E4); (as_req c vo cso, E5); (gs_req c, E6)])
+      = hresponses k cfg allow h ++ [r3; r4; mkResp 200 (Some vn) None None (Some RTSnapshot) (body_of csn) true].
+Proof. exact http_two_uploads_newer_wins. Qed.
